@@ -1,5 +1,5 @@
 #!/venv/bin/python
-"""tools/run_seeded.py [<seed dir> ...]  - apply each /verif/seeded/<name>/patch.diff to /repo, run every quick check, undo.
+"""tools/run_seeded.py [--benign] [<seed dir> ...]  - apply each /verif/seeded/<name>/patch.diff (or /verif/benign/<name>/patch.diff) to /repo, run every quick check, undo.
 Prints, per seeded change, the exit status of the target property's check and every rule that fired in any check.
 /repo must be clean before; it is restored (git checkout -- .) after each patch, also on error."""
 import json, os, subprocess, sys
@@ -8,12 +8,16 @@ REPO = "/repo"
 def sh(*a, **k):
     return subprocess.run(a, capture_output=True, text=True, **k)
 def main():
-    names = sys.argv[1:] or sorted(os.listdir(os.path.join(V, "seeded")))
+    base = "seeded"
+    args = sys.argv[1:]
+    if args and args[0] == "--benign":
+        base, args = "benign", args[1:]
+    names = args or sorted(os.listdir(os.path.join(V, base)))
     if sh("git", "-C", REPO, "status", "--porcelain", "--untracked-files=no").stdout.strip():
         print("refusing: /repo has local modifications"); return 2
     rows = []
     for n in names:
-        d = os.path.join(V, "seeded", n)
+        d = os.path.join(V, base, n)
         patch = os.path.join(d, "patch.diff")
         if not os.path.exists(patch):
             continue
